@@ -87,13 +87,41 @@ func runC16(c *Ctx) {
 		text  string
 	}
 	var succs []succ
-	for _, r := range returnsUnder(f, nil) {
-		if len(r.Results) != 2 || !isNilConst(r.Results[1]) {
-			continue
+	// the comparison that selects the order of the halves: the key is evaluated once under each of its outcomes, so that
+	// two returns, one return fed by exchanged locals, or a conditional swap are judged alike
+	var selAtoms []Atom
+	for _, a := range w.atomsOf(f) {
+		if a.Kind == "lt" && isStringType(a.X.Type()) {
+			selAtoms = append(selAtoms, a)
 		}
-		for _, v := range phiLeaves(r.Results[0]) {
-			sv := w.evalStr(v, senv{}, 0)
-			succs = append(succs, succ{r, sv.parts, renderParts(sv.parts, role)})
+	}
+	var sel *Atom
+	if len(selAtoms) == 1 {
+		sel = &selAtoms[0]
+		for _, val := range []bool{true, false} {
+			keep := w.under(assumeAtom(func(b Atom) bool { return b.Key == sel.Key }, val))
+			for _, r := range returnsUnder(f, keep) {
+				if len(r.Results) != 2 {
+					continue
+				}
+				if !allVals(valuesUnder(f, r.Results[1], keep), isNilConst) {
+					continue
+				}
+				for _, v := range valuesUnder(f, r.Results[0], keep) {
+					sv := w.evalStrUnder(f, v, keep)
+					succs = append(succs, succ{r, sv.parts, renderParts(sv.parts, role)})
+				}
+			}
+		}
+	} else {
+		for _, r := range returnsUnder(f, nil) {
+			if len(r.Results) != 2 || !isNilConst(r.Results[1]) {
+				continue
+			}
+			for _, v := range phiLeaves(r.Results[0]) {
+				sv := w.evalStr(v, senv{}, 0)
+				succs = append(succs, succ{r, sv.parts, renderParts(sv.parts, role)})
+			}
 		}
 	}
 	if len(succs) == 0 {
@@ -130,15 +158,6 @@ func runC16(c *Ctx) {
 		c.check(swap(succs[0].text) == succs[1].text, rule, "GetDialog/same-term-halves-exchanged", w.ipos(succs[0].r), "both orders build the same term with From and To halves exchanged",
 			"the two orderings are not mirror images: "+succs[0].text+" vs "+succs[1].text+" (a message seen in the other direction gets a different key)")
 		// the selecting comparison
-		var sel *Atom
-		for _, a := range w.atomsOf(f) {
-			a := a
-			if a.Kind == "lt" && isStringType(a.X.Type()) {
-				if w.requires(f, succs[0].r, func(b Atom) bool { return b.Key == a.Key }, true) || w.requires(f, succs[0].r, func(b Atom) bool { return b.Key == a.Key }, false) {
-					sel = &a
-				}
-			}
-		}
 		if sel == nil {
 			c.bad(rule, "GetDialog/selector", w.pos(f.Pos()), "no string comparison selects the order of the halves")
 		} else {
@@ -164,6 +183,7 @@ func runC16(c *Ctx) {
 	}
 	// (4) errors of every component lookup are returned
 	rule = "tag-errors"
+	ruleKVFind(c, rule, "(*FromSpec).GetParam", "(*To).GetParam")
 	for _, call := range []ssa.CallInstruction{cid, gf, ftag, gt, ttag, fas, tas, fad, tad} {
 		ok, why := w.errPropagated(f, call)
 		c.check(ok, rule, "GetDialog/"+w.calleeName(call)+"@"+w.termKey(callArg(call, -1)), w.ipos(call), "failure yields no dialog", "a failing "+w.calleeName(call)+" does not make GetDialog fail: a message without that component is still attributed to a dialog ("+why+")")
